@@ -1,7 +1,7 @@
 -------------------------- MODULE Export_Formats --------------------------
 EXTENDS Formats, Json, SequencesExt
 CONSTANT ScenOut
-Rec(p) == [fmt |-> p.fmt, bk |-> p.bk, sibling |-> p.sibling, ext |-> p.ext, rootErr |-> p.rootErr, ok |-> GenOK(p)]
+Rec(p) == [fmt |-> p.fmt, bk |-> p.bk, sibling |-> p.sibling, ext |-> p.ext, rootErr |-> p.rootErr, how |-> p.how, ok |-> GenOK(p)]
 ASSUME ndJsonSerialize(ScenOut, SetToSeq({Rec(p) : p \in Progs}))
 ASSUME PrintT(<<"exported", Cardinality(Progs)>>)
 VARIABLE x
